@@ -188,7 +188,8 @@ C08_Cers == UNION { [1..n -> C08_Steps] : n \in 1..3 }
 -----------------------------------------------------------------------------
 (* C02 / C03 (authenticator level): what a relying party can verify         *)
 
-Algs == {"ES256", "RS256", "EdDSA", "unknown"}
+\* "u:<alg>": the entry carries a credential type the library does not know (such entries are not supported entries)
+Algs == {"ES256", "RS256", "EdDSA", "unknown", "u:RS256"}
 AlgLists == UNION { [1..n -> Algs] : n \in 0..3 }
 C02_Cfgs == { [BaseCfg EXCEPT !.idLen = n, !.counterOn = c] : n \in {0, 15, 16, 40, 64, 65, 255}, c \in BOOLEAN }
 C02_Stores == { << <<>> >>, << <<Cred("c1", "r1", "u1", NoCtr, "none")>> >> }
@@ -250,7 +251,8 @@ C11c_Cers ==
 
 \* C02 through the client
 C02c_Cfgs == { [BaseCfg EXCEPT !.idLen = n, !.counterOn = c] : n \in {16, 64}, c \in BOOLEAN }
-C02c_AlgLists == { <<>>, <<"ES256">>, <<"RS256", "ES256">>, <<"EdDSA", "unknown">>, <<"RS256">>, <<"unknown", "ES256", "EdDSA">> }
+C02c_AlgLists == { <<>>, <<"ES256">>, <<"RS256", "ES256">>, <<"EdDSA", "unknown">>, <<"RS256">>, <<"unknown", "ES256", "EdDSA">>,
+                   <<"u:RS256">>, <<"u:EdDSA", "u:RS256">>, <<"u:RS256", "ES256">> }
 C02c_Cers ==
     { << Cer("client", "mc", [WithDom(BaseCReq, d) EXCEPT !.algs = a, !.chal = ch, !.cdmode = m], BaseEnv) >> :
         d \in DomsOk \cup DomsBad, a \in C02c_AlgLists, ch \in {"c0", "c1", "c32", "c1024"}, m \in {"default", "extra", "hash"} }
@@ -342,7 +344,9 @@ C17_Stores == { << <<>> >> }
 C17_Cers ==
     { << U2fReg(a1, h1), U2fAuth(a2, h2, c, p), U2fReg(a2, h2), U2fAuth(a2, h2, c, p), U2fAuth(a1, h1, Ctr(0, 1), <<"UP">>) >> :
         a1 \in {"a1"}, a2 \in {"a1", "a2"}, h1 \in Handles, h2 \in Handles,
-        c \in {Ctr(0, 0), Ctr(0, 1), Ctr(65535, 65535)}, p \in {<<>>, <<"UP">>, <<"UP", "UV">>} }
+        c \in {Ctr(0, 0), Ctr(0, 1), Ctr(65535, 65535)},
+        \* the caller chooses the presence byte: any flag bits, not only UP / UV
+        p \in {<<>>, <<"UP">>, <<"UP", "UV">>, <<"UP", "BE", "BS">>, <<"UV", "AT", "ED">>} }
 
 -----------------------------------------------------------------------------
 (* C13: every status byte as a store fault under the client                 *)
